@@ -122,7 +122,6 @@ package domain
 //@ interface Matcher.Match
 //@   log Match
 //@   params self, s
-//@   modifies *
 //@ interface WriteableMatcher.Add
 //@   log AddI
 //@   params self, pattern, v
@@ -130,13 +129,13 @@ package domain
 
 //@ type MixMatcher
 //@   immutable full, domain, regex, keyword
+//@   invariant self.full != nil && self.domain != nil && self.regex != nil && self.keyword != nil
 
 // MixMatcher.Match (C12): full, domain, regexp, keyword are asked in exactly this order with the
 // caller's name; the first that matches decides (its value is returned); no match if none does.
 //@ func (m *MixMatcher) Match [C12]
 //@   log mixMatch
-//@   requires m != nil && m.full != nil && m.domain != nil && m.regex != nil && m.keyword != nil
-//@   modifies *
+//@   requires m != nil
 //@   ensures ok ==> calls(Match) >= 1 && v == lastret(Match, 0) && lastret(Match, 1)
 //@   ensures !ok ==> it0 == 4
 //@   loop 0:
@@ -174,3 +173,14 @@ package domain
 //@   requires m != nil
 //@   modifies *
 //@   ensures calls(AddI) <= 1 && (calls(AddI) == 1 ==> arg(AddI, 0, 0) == m && result == ret(AddI, 0))
+
+//@ func NewMixMatcher [C12]
+//@   ensures result != nil && fresh(result)
+//@ func NewFullMatcher [C12]
+//@   ensures result != nil && fresh(result) && result.m != nil && len(result.m) == 0
+//@ func NewSubDomainMatcher [C12]
+//@   ensures result != nil && fresh(result) && result.root != nil && !result.root.hasV && result.root.children == nil
+//@ func NewRegexMatcher [C12]
+//@   ensures result != nil && fresh(result) && result.regs != nil && len(result.regs) == 0
+//@ func NewKeywordMatcher [C12]
+//@   ensures result != nil && fresh(result) && result.kws != nil && len(result.kws) == 0
